@@ -278,6 +278,19 @@ pub fn gen_tx<S: Scheme>(rng: &mut ChaCha20Rng, thorough: bool, max_polys: usize
     gen_tx_with::<S>(cfg, rng, max_polys)
 }
 
+/// A copy of `x` obtained through canonical serialization; `mode` selects compression and validation.
+pub fn reserialize<T: ark_serialize::CanonicalSerialize + ark_serialize::CanonicalDeserialize>(x: &T, mode: u32) -> Result<T, String> {
+    use ark_serialize::{Compress, Validate};
+    let cm = if mode & 1 == 0 { Compress::Yes } else { Compress::No };
+    let va = if mode & 2 == 0 { Validate::Yes } else { Validate::No };
+    crate::rt::guard(|| {
+        let mut b = Vec::new();
+        x.serialize_with_mode(&mut b, cm).map_err(|e| format!("serialize: {:?}", e))?;
+        T::deserialize_with_mode(&b[..], cm, va).map_err(|e| format!("deserialize: {:?}", e))
+    })
+    .unwrap_or_else(|p| Err(format!("panic: {}", p)))
+}
+
 pub fn gen_tx_with<S: Scheme>(cfg: Cfg, rng: &mut ChaCha20Rng, max_polys: usize) -> Result<Tx<S>, TxErr> {
     let w = make_world::<S>(&cfg, rng).map_err(|(st, o)| TxErr::Refused(st, o, cfg.json()))?;
     let n = range(rng, 1, max_polys.max(1));
@@ -306,6 +319,31 @@ pub fn gen_tx_with<S: Scheme>(cfg: Cfg, rng: &mut ChaCha20Rng, max_polys: usize)
     let npre = below(rng, 40);
     let mut pre = vec![0u8; npre];
     rng.fill_bytes(&mut pre);
+    // API surface: in a quarter of the scenarios the keys, and in another quarter the commitments, are not the
+    // objects setup / trim / commit returned but copies that went through canonical serialization (all four modes)
+    let (mut w, mut c) = (w, c);
+    match rng.next_u32() % 4 {
+        0 => {
+            let mode = rng.next_u32();
+            match (reserialize(&w.ck, mode), reserialize(&w.vk, mode)) {
+                (Ok(ck), Ok(vk)) => {
+                    w.ck = ck;
+                    w.vk = vk;
+                }
+                (Err(e), _) | (_, Err(e)) => return Err(TxErr::Refused("deserialize-key".into(), Out::Err(e), cfg.json())),
+            }
+        }
+        1 => {
+            let mode = rng.next_u32();
+            for lc in c.comms.iter_mut() {
+                match reserialize(lc.commitment(), mode) {
+                    Ok(cm) => *lc = LabeledCommitment::new(lc.label().clone(), cm, lc.degree_bound()),
+                    Err(e) => return Err(TxErr::Refused("deserialize-commitment".into(), Out::Err(e), cfg.json())),
+                }
+            }
+        }
+        _ => {}
+    }
     Ok(Tx { w, specs, polys, c, pre, commit_seed })
 }
 
